@@ -10,7 +10,10 @@ RULE = ("scripts of 10..60 operations over up to 6 instrumented processes on one
         "generator), link, unlink, monitor (several per pair), demonitor, process failure (a message that makes the handler return an "
         "error), operations on terminated and never-registered targets, with observations (events of each process, process count, "
         "registered names) after every few operations; every operation runs to quiescence. distinct = distinct script; non-trivial = at "
-        "least one termination")
+        "least one termination. gen_server: a GenServerProcess around an instrumented server in the library's process loop, scripts of 1..25 "
+        "mailbox messages: calls from live, unregistered and unknown callers with fresh and repeated references, requests answered, "
+        "left unanswered or failing, casts, plain messages, exit signals, ignored kinds and eleven near misses of the call / cast shapes; "
+        "observed: what the callbacks saw, each caller's mailbox, whether the process survived")
 ASSUMPTIONS = ["Node::start registers with an EPMD stand-in served by the harness on localhost:4369 (the library fixes host and port)",
                "one operation is run to quiescence before the next: interleavings inside an operation are not sampled by this check",
                "identifiers and references are taken from the implementation's output; the oracle demands only that they are pairwise distinct"]
@@ -94,6 +97,12 @@ def oracle(case, impl):
         elif op == "send":
             i = idx()
             want = "ok" if sp.deliver(i, ("R", etf.read_term(t))) else "err"
+        elif op == "flood":
+            i, n = idx(), int(t.next())
+            body = etf.read_term(t)
+            want = "ok" if all([sp.deliver(i, ("R", body)) for _ in range(n)]) else "err"
+        elif op == "open":
+            want = "-"
         elif op == "sendname":
             name = etf.unhex(t.next())
             body = etf.read_term(t)
@@ -146,6 +155,110 @@ def oracle_for(_d):
     return oracle
 
 
+# ------------------------------------------------------------------------------------------
+# the gen_server behaviour (domain gsrv): each call answered once, to its caller
+
+def A(b):
+    return ("a", b)
+
+
+def caller_pid(k):
+    return ("p", b"c@h", 100 + k, 0, 1, None)
+
+
+def gen_gsrv(rng):
+    ncall = rng.choice([1, 2, 3])
+    mask = "".join(rng.choice("110") for _ in range(ncall))
+    steps, refs = [], 0
+    reqs = [A(b"hi"), A(b"noreply"), ("i", 7), ("t", [A(b"get"), ("b", b"k")]), ("n",), A(b"ok")]
+    for _ in range(rng.choice([1, 3, 6, 12, 25])):
+        r = rng.random()
+        k = rng.randrange(ncall + 1)                       # ncall = a pid nobody has
+        pid = caller_pid(k) if k < ncall else ("p", rng.choice([b"c@h", b"other@h"]), 7, rng.choice([0, 1]), 1, None)
+        refs += 1
+        ref = ("r", b"c@h", 1, [rng.choice([refs, 1, 2])] + ([refs] if rng.random() < 0.3 else []), None)
+        req = rng.choice(reqs) if rng.random() < 0.93 else A(b"fail")
+        if r < 0.45:
+            steps.append("R " + etf.show(("t", [A(b"$gen_call"), ("t", [pid, ref]), req])))
+        elif r < 0.55:
+            steps.append("R " + etf.show(("t", [A(b"$gen_cast"), req])))
+        elif r < 0.63:
+            steps.append("R " + etf.show(req))
+        elif r < 0.70:
+            steps.append("X " + etf.show(rng.choice([A(b"normal"), A(b"kill"), ("t", [A(b"shutdown"), ("i", 1)])])))
+        elif r < 0.74:
+            steps.append("O")
+        else:       # near misses of the protocol: they are ordinary messages (handle_info)
+            bad = rng.choice([
+                ("t", [A(b"$gen_call"), ("t", [pid, ref])]),                          # no request
+                ("t", [A(b"$gen_call"), ("t", [pid, ref]), req, req]),                # one element too many
+                ("t", [A(b"$gen_call"), ("t", [ref, pid]), req]),                     # from-tuple swapped
+                ("t", [A(b"$gen_call"), ("t", [pid, ref, A(b"x")]), req]),            # from-tuple of three
+                ("t", [A(b"$gen_call"), pid, req]),                                   # bare pid
+                ("t", [A(b"$gen_call"), ("t", [pid, ("i", 5)]), req]),                # not a reference
+                ("t", [("b", b"$gen_call"), ("t", [pid, ref]), req]),                 # tag not an atom
+                ("t", [A(b"$gen_cast")]),                                             # cast without request
+                ("t", [A(b"$gen_cast"), req, req]),                                   # cast with two
+                ("t", [A(b"gen_call"), ("t", [pid, ref]), req]),                      # another tag
+                ("l", [A(b"$gen_call"), ("t", [pid, ref]), req]),                     # a list, not a tuple
+            ])
+            steps.append("R " + etf.show(bad))
+    return SEP.join(["gsrv " + mask] + steps)
+
+
+def gsrv_expect(case):
+    """OTP's gen_server protocol for the instrumented server: reply {ok, Req} unless Req is noreply / fail"""
+    parts = case.split(SEP)
+    mask = parts[0].split()[1]
+    live = {etf.show(caller_pid(k)) for k in range(len(mask)) if mask[k] == "1"}
+    log, boxes, alive = [], {k: [] for k in range(len(mask))}, True
+    for st in parts[1:]:
+        if not alive:
+            break
+        kind, _, rest = st.partition(" ")
+        if kind == "O":
+            continue
+        t = etf.parse_term(rest)
+        if kind == "X":
+            log.append("T " + etf.show(t))
+            continue
+        failed = False
+        if (t[0] == "t" and len(t[1]) == 3 and t[1][0] == A(b"$gen_call") and t[1][1][0] == "t" and len(t[1][1][1]) == 2
+                and t[1][1][1][0][0] == "p" and t[1][1][1][1][0] == "r"):
+            pid, ref, req = t[1][1][1][0], t[1][1][1][1], t[1][2]
+            log.append("C %s %s" % (etf.show(req), etf.show(pid)))
+            if req == A(b"fail"):
+                failed = True
+            elif req != A(b"noreply") and etf.show(pid) in live:
+                k = pid[2] - 100
+                boxes[k].append(etf.show(("t", [ref, ("t", [A(b"ok"), req])])))
+        elif t[0] == "t" and len(t[1]) == 2 and t[1][0] == A(b"$gen_cast"):
+            log.append("K " + etf.show(t[1][1]))
+            failed = t[1][1] == A(b"fail")
+        else:
+            log.append("I " + etf.show(t))
+            failed = t == A(b"fail")
+        if failed:
+            log.append("T " + etf.show(A(b"normal")))
+            alive = False
+    j = lambda l: " , ".join(l) if l else "-"  # noqa
+    return SEP.join(["alive=%d" % alive, "log=" + j(log)] + ["c%d=%s" % (k, j(boxes[k])) for k in range(len(mask))])
+
+
+def gsrv_oracle(case, impl):
+    if impl.startswith(("PANIC", "CRASH", "TIMEOUT")):
+        return ("violation", "did not return: " + impl[:60])
+    want = gsrv_expect(case)
+    if impl != want:
+        wi, ww = impl.split(SEP), want.split(SEP)
+        for a, b in zip(wi, ww):
+            if a != b:
+                what = "a caller's mailbox" if a.startswith("c") else "what the callbacks saw" if a.startswith("log") else "liveness"
+                return ("violation", "gen_server: %s differs: got %s, expected %s" % (what, a[:80], b[:80]))
+        return ("violation", "gen_server: output shape differs")
+    return None
+
+
 def run(ctx):
     rng = ctx.rng
     cases = [gen_script(rng) for _ in range(ctx.budget(150, 4000))]
@@ -162,9 +275,27 @@ def run(ctx):
     cases.append(SEP.join(["node 0", "spawn", "spawn", "register 616c696365 $0", "register 626f62 $0", "send $0 a 6372617368", "whereis 616c696365",
                            "whereis 626f62", "registered", "register 626f62 $1", "whereis 626f62", "sendname 626f62 i 1", "events $1"]))
 
+    # a watcher that is busy with a full mailbox (the default capacity is 1000) when the process it watches ends still gets
+    # its notices; also one message short of full, and a registered name freed meanwhile
+    park = "a " + hx(b"park")
+    for n in (999, 1000):
+        cases.append(SEP.join(["node 0", "spawn", "spawn", "link $0 $1", "monitor $0 $1", "register 616c696365 $1", "send $0 " + park,
+                               "flood $0 %d i 1" % n, "send $1 a 6372617368", "open", "events $0", "count", "whereis 616c696365", "registered"]))
+    cases.append(SEP.join(["node 0", "spawn", "spawn", "spawn", "monitor $0 $2", "monitor $1 $2", "send $0 " + park, "flood $0 1000 a 78",
+                           "send $2 a 6372617368", "open", "events $0", "events $1", "count"]))
+
     def classify(c, impl):
         out = []
         for s in c.split(SEP)[1:]:
             out.append("op:" + s.split()[0])
         return out
     ctx.diff_domain("node", cases, oracle=oracle, nontrivial=lambda c, i: c if "6372617368" in c else None, classify=classify)
+    # OTP-style behaviours answer each call once to its caller
+    gcases = list(dict.fromkeys(gen_gsrv(rng) for _ in range(ctx.budget(400, 12000))))
+
+    def gclassify(c, impl):
+        out = ["gsrv:callers=%s" % c.split(SEP)[0].split()[1]]
+        for st in c.split(SEP)[1:]:
+            out.append("gsrv:" + ("call" if "2467656e5f63616c6c" in st else "cast" if "2467656e5f63617374" in st else st.split()[0]))
+        return out
+    ctx.diff_domain("gsrv", gcases, oracle=gsrv_oracle, nontrivial=lambda c, i: c if " , " in i else None, classify=gclassify)
